@@ -58,13 +58,16 @@ register("C11", "exploration",
 register("C16", "exploration",
          "three parts: (seq-mp) " + SEQ_RULE + "; every history runs in multiprocessing mode (USE_MULTIPROCESSING=True, simulated "
          "multiprocessing primitives) and any disagreement is re-run in threading mode: only a difference "
-         "between the modes counts; (conc-mp-obj, conc-mp-meta) the C07 / C12 scenarios with USE_MULTIPROCESSING=True: "
+         "between the modes counts; (seq-real-mp) a few short histories with the REAL multiprocessing.Lock / Condition / "
+         "Manager().list() (seam off, one process: validates that the code uses the real primitives correctly); (conc-mp-obj, conc-mp-meta) the C07 / C12 scenarios with USE_MULTIPROCESSING=True: "
          "tasks stand for forked processes (fork-view of the store object, shared simulated mp primitives, every "
          "manager-list operation a yield point, PRNG-chosen wake-ups), oracles of C07/C12/C08",
          COMMON_ASSUME + ["contention among real OS-scheduled forked processes is outside the simulator; "
                           "processes are simulated tasks with fork-views of the store"],
          30, 420,
          [SeqPart("C16", mp=True, name="seq-mp", focus=["op:store", "op:tag", "delete-ok", "meta"]),
+          SeqPart("C16", mp=True, name="seq-real-mp", real_mp=True, weight=0.25,
+                  focus=["op:store", "op:tag", "delete-ok", "meta"]),
           ConcPart("C16", "obj", mp=True, name="conc-mp-obj"),
           ConcPart("C16", "meta", mp=True, name="conc-mp-meta", weight=0.6)])
 
@@ -86,12 +89,18 @@ register("C08", "exploration",
          CONC_RULE + "; C08 looks only at: scheduler never ends with a blocked unfinished task (deadlock) nor hits "
          "the step cap, locked-identifier lists empty and every simulated lock free at quiescence, follow-up "
          "delete/store/retrieve on every pid and store/retrieve_metadata on every document complete. The FAULT "
-         "runs of C13 apply the same oracles after an injected I/O error",
+         "runs of C13 (fault-sweep, fault-random) apply the same oracles after an injected I/O error at every fault "
+         "site of every single call, and conc-fault-* inject one I/O error somewhere into a multi-task run (only the "
+         "liveness oracles apply there)",
          COMMON_ASSUME + ["blocking is simulated: a task that would block is parked by the scheduler, so slow != blocked"],
          40, 480,
          [ConcPairsPart("C08", "obj", "conc-pairs-obj", per_shape=(2, 20), weight=0.8),
           ConcPairsPart("C08", "meta", "conc-pairs-meta", per_shape=(2, 20), weight=0.5),
-          ConcPart("C08", "obj", name="conc-obj"), ConcPart("C08", "meta", name="conc-meta", weight=0.7)])
+          ConcPart("C08", "obj", name="conc-obj"), ConcPart("C08", "meta", name="conc-meta", weight=0.7),
+          ConcPart("C08", "obj", name="conc-fault-obj", fault=True, weight=0.8),
+          ConcPart("C08", "meta", name="conc-fault-meta", fault=True, weight=0.4),
+          SingleSweepPart("C08", "FAULT", "fault-sweep", errnos=("EIO",), weight=1.0),
+          SingleRandomPart("C08", "FAULT", "fault-random", weight=0.5)])
 
 register("C13", "fault_enumeration",
          "two parts: a complete sweep of the (start state x call) menu over every fault site (create, open for "
